@@ -25,6 +25,13 @@ fn points(mode: Mode) -> Vec<f64> {
         sp.push(f64::from_bits(e.to_bits() + 1));
         sp.push(f64::from_bits(e.to_bits() - 1));
     }
+    // both sides of the switch from the series to the closed form at |x| = 1 (both widths), and
+    // arguments just below it, where the truncation of the series is largest
+    sp.push(f64::from_bits(1f64.to_bits() + 1));
+    sp.push(f64::from_bits(1f64.to_bits() - 1));
+    sp.push(f32::from_bits(1f32.to_bits() + 1) as f64);
+    sp.push(f32::from_bits(1f32.to_bits() - 1) as f64);
+    sp.extend([0.9, 0.99, 0.999, 1.001]);
     // f32 neighbours of eps32
     sp.push(f32::from_bits(f32::EPSILON.to_bits() + 1) as f64);
     sp.push(f32::from_bits(f32::EPSILON.to_bits() - 1) as f64);
@@ -100,7 +107,7 @@ fn main() {
         mode: cli.mode,
         seed: cli.seed,
         start,
-        rule: "sph_j0/1/2 x {plain f32, f64, scalar dual types over both widths, vector and nested types} x the lattice k/64 (quick: k/16) in [-50,50] plus 0, denormals, 1e-300, +-eps/2, +-eps and their float neighbours for both widths, 1e-8, 1e-5, 1e-3 with both signs x {2 generic part assignments with pairwise distinct non-unit parts, the unit seeding}; non-trivial = an operand part is neither 0 nor 1 and the result has a non-zero derivative part".into(),
+        rule: "sph_j0/1/2 x {plain f32, f64, scalar dual types over both widths, vector and nested types} x the lattice k/64 (quick: k/16) in [-50,50] plus 0, denormals, 1e-300, +-eps/2, +-eps and their float neighbours for both widths, 1e-8, 1e-5, 1e-3, the switch |x| = 1 with its float neighbours in both widths, 0.9, 0.99, 0.999, 1.001, with both signs x {2 generic part assignments with pairwise distinct non-unit parts, the unit seeding}; non-trivial = an operand part is neither 0 nor 1 and the result has a non-zero derivative part".into(),
         assumptions: vec![
             "tolerance per part: 128 u (M + E^def) + 16 u sum|N^k|: Faa di Bruno majorant, propagated bound of the closed form the property quotes (x != 0), and the absolute rounding level of a well-conditioned evaluation (all derivatives of j_n are bounded by 1)".into(),
             "reference: Maclaurin series for |x| < 1, closed forms in double-double beyond, series jets from the closed forms; audited against mpmath".into(),
